@@ -80,8 +80,8 @@ def sweep(tier):
     return files
 
 
-def jobs(tier, solver="linear"):
-    d = clean_dir(os.path.join(workdir("sierra"), "bsweep_src"))
+def jobs(tier, solver="linear", area="sierra"):
+    d = clean_dir(os.path.join(workdir(area), "bsweep_src"))
     out = []
     for name, src, runs in sweep(tier):
         p = os.path.join(d, name + ".cairo")
